@@ -62,7 +62,7 @@ def cstr(s):
     else:
         b = bytes(s)
     if all(32 <= c < 127 and c != 34 for c in b):
-        return '(L "%s")' % b.decode("ascii")
+        return '(L "%s"%%string)' % b.decode("ascii")
     return "(B [%s])" % ";".join(str(c) for c in b)
 
 
@@ -107,15 +107,32 @@ def coq_build(deps=None):
         return r.returncode == 0, r.stdout
 
 
+def strip_coq_comments(text):
+    """remove (* ... *) comments (nested, multi-line), keeping line structure"""
+    out, depth, i, n = [], 0, 0, len(text)
+    while i < n:
+        if text.startswith("(*", i):
+            depth += 1
+            i += 2
+        elif depth and text.startswith("*)", i):
+            depth -= 1
+            i += 2
+        else:
+            if depth == 0 or text[i] == "\n":
+                out.append(text[i])
+            i += 1
+    return "".join(out)
+
+
 def forbidden_hits():
     hits = []
     for d, _, fs in os.walk(os.path.join(COQ, "theories")):
         for fn in fs:
             if fn.endswith(".v"):
                 p = os.path.join(d, fn)
-                for i, line in enumerate(open(p, errors="replace"), 1):
-                    code = re.sub(r"\(\*.*?\*\)", "", line)
-                    if re.search(FORBIDDEN, code):
+                code = strip_coq_comments(open(p, errors="replace").read())
+                for i, line in enumerate(code.split("\n"), 1):
+                    if re.search(FORBIDDEN, line):
                         hits.append("%s:%d: %s" % (os.path.relpath(p, ROOT), i, line.strip()))
     return hits
 
